@@ -215,6 +215,17 @@ def run(case: dict, ctx) -> dict:
         sf, layer, meta = w.build_hosted(rng, capacity=cap, grain=grain, ngte=ngte, states=st, placement=placement, tag=tag)
     size = meta["size"]
     model = Model(size, [layer])
+    if k == "sesparse" and sf.end <= (48 << 20) and case["i"] % 2 == 0:
+        from vf.diskcheck import triangulate
+
+        triangulate(rng, RefSESparse(sf.to_bytes()), model, "sesparse")
+        res["cnt"]["writer_triangulations"] = 1
+    if k in ("hosted", "cowd") and sf.end <= (16 << 20) and case["i"] % 3 == 0 and not meta.get("tables_after"):
+        from vf.diskcheck import triangulate
+        from vf.refreaders import RefVMDKSparse
+
+        triangulate(rng, RefVMDKSparse(sf.to_bytes()), model, "vmdk-" + k)
+        res["cnt"]["writer_triangulations"] = res["cnt"].get("writer_triangulations", 0) + 1
     fh = as_handle(sf.to_bytes() if sf.end <= (6 << 20) else sf)
     o = call(VMDK, fh)
     if not o.ok:
